@@ -311,6 +311,43 @@ def part_b_history(k, plan, exe, root, nops):
     return k, res, classes, script
 
 
+def part_c_huge(k, plan, exe, root):
+    """fd_readdir into guest buffers of 2 GiB and more (valid: the guest memory of this driver has 40000 pages)."""
+    r = env.rng('c14huge', k)
+    d = os.path.join(root, 'huge%d' % k)
+    T = os.path.join(d, 'dir')
+    os.makedirs(T)
+    n = r.randint(3, 40)
+    for i in range(n):
+        nm = 'entry-%d-%s' % (i, 'x' * r.randint(0, 40))
+        if i % 3 == 0:
+            os.mkdir(os.path.join(T, nm))
+        else:
+            open(os.path.join(T, nm), 'w').write('y')
+    g = wasih.Guest(plan, 4096)
+    g.instantiate(preopens=[d])
+    g.poke(0x100, b'dir')
+    g.call('path_open', [3, 0, 0x100, 3, 2, (1 << 1) | (1 << 14), 0, 0, 0x200])
+    fk = plan.fk('%s_fd_readdir' % r.choice(['p1', 'un']))
+    size = [(1 << 31) - 1, 1 << 31, (1 << 31) + 24, 0x90000000, 0x7fffff00][k % 5]
+    idx = g.emit('R 0 %d 4 %d %d %d %d 0 %d 50' % (fk, 0x10000, size, size, 0x800, r.getrandbits(32)), 'R')
+    script = g.script()
+    rr, out = wasih.run_script(exe, d, script, timeout=300)
+    res = []
+    files = {'script.txt': script, 'stderr.txt': rr.err.decode('latin-1')[-3000:], 'log.txt': '\n'.join(out)[-6000:]}
+    if rr.rc != 0 or idx >= len(out):
+        res.append(('C14:readdir:huge-buffer:crash', 'listing into a %#x-byte buffer: driver exit %s' % (size, rr.rc), files))
+    else:
+        toks = out[idx].split(' ')
+        names = [bytes.fromhex(t.split(':')[0]) for t in toks[2:] if t.count(':') == 4]
+        flags = [t for t in toks[2:] if t in ('TRAP', 'USED>SIZE', 'NOPROGRESS', 'MAXCALLS') or t.startswith('errno=') or t.startswith('OVERRUN')]
+        want = sorted([x.encode() for x in os.listdir(T)] + [b'.', b'..'])
+        if flags or sorted(names) != want:
+            res.append(('C14:readdir:huge-buffer', 'listing %d entries into a %#x-byte buffer: consumer flags %s, %d names delivered (%d expected)' % (n, size, flags, len(names), len(want)), files))
+    shutil.rmtree(d, ignore_errors=True)
+    return k, res, [('huge-buffer', size)], script
+
+
 # ------------------------------------------------------------------ (c)
 def part_c_listing(k, plan, exe, root):
     r = env.rng('c14c', k)
@@ -474,6 +511,23 @@ def main(chk):
             if key not in seen:
                 seen.add(key)
                 chk.violation(key, what, files)
+    # guest buffers of 2 GiB and more: a driver whose guest memory has 40000 pages (lazily committed; plain build, run one at a time)
+    try:
+        import mmap
+        mm = mmap.mmap(-1, 40000 * 65536)
+        mm.close()
+        hmod = wasih.trampoline(pages=40000)
+        hexe, hplan = wasih.build_driver(w2c2, os.path.join(root, 'build-huge'), hmod, ['-O1', '-g'], name='htramp')
+        for k in range(5 if quick else 15):
+            k_, res, classes, script = part_c_huge(k, hplan, hexe, root)
+            chk.ev(1)
+            for c in classes:
+                chk.distinct(('readdir',) + tuple(c))
+                chk.observe('listing_huge_buffer')
+            for key, what, files in res:
+                chk.violation(key, what, files)
+    except (OSError, ValueError) as ex:
+        chk.observe('listing_huge_buffer', 'skipped: host cannot reserve the guest memory (%s)' % ex, 'set')
     chk.sample({'part': 'c', 'protocol': 'parse 24-byte records, discard truncated tail, continue from last complete d_next; buffers from 24+maxname'})
     chk.assume('POSIX twin on the same kernel/filesystem; telldir cookies are only used on the stream that produced them (resume passes replay the same pass first and require identical cookies, else the resume monitor is skipped and counted)')
     chk.assume('the errno reported for an empty path, and for a resolved path that does not fit, is not fixed by the property (any error / EINVAL|ENAMETOOLONG accepted)')
